@@ -39,6 +39,30 @@ def configs(tier, seed):
     return cfgs
 
 
+def compare(w, rr):
+    """path witnesses of the model harness evaluate real metric bodies: the twin is exact over the reals, the real
+    package rounds.  At an exact tie of two arc weights the two may legitimately pick different sides.  A mismatch
+    is therefore a harness error only if the real package's answer is *stable* around the witness point; if tiny
+    perturbations of the inputs make the real package return the twin's answer too, the witness sits on a decision
+    boundary and says nothing about the encoding."""
+    from .driver import default_compare
+    from . import common
+    mm = default_compare(w, rr)
+    if not mm or w.get("kind") != "purity_model":
+        return mm
+    feats = w["feats"]
+    reqs = []
+    for i in range(len(feats)):
+        for d in (1e-9, -1e-9, 1e-6, -1e-6):
+            f2 = list(feats)
+            f2[i] = feats[i] * (1 + d) + d * 1e-3
+            reqs.append(dict(w, feats=f2))
+    for r2 in common.run_real(reqs):
+        if r2.get("ok") and default_compare(w, r2) is None:
+            return None
+    return mm
+
+
 def signature(prop, cfg, viol):
     name = viol["name"]
     site = name.split("@")[1] if "@" in name else ""
